@@ -124,8 +124,8 @@ def _run0(ck, fb):
     sp = ck.body(LM + 'save_new_snapshot_pointer', 'R08e')
     if sp:
         ins = util.mut_calls_on_field(sp, 'logs', r'Vec::<T, A>::insert$')
-        sv = util.sends(sp, r'RaftIndexRequest$', 'SaveLogs')
-        ck.require(len(ins) == 1 and len(sv) == 1 and cfg.dominates_blocks(sp, {sv[0][0].bb}, ins[0].bb), 'R08e', 'save_new_snapshot_pointer:insert+SaveLogs',
+        sv = util.send_sites_deep(fb, sp, r'RaftIndexRequest$', 'SaveLogs')
+        ck.require(len(ins) >= 1 and len(sv) >= 1 and all(any(cfg.dominates_blocks(sp, {x[0].bb}, i0.bb) or cfg.must_pass_before_return(sp, i0.bb, {x[0].bb}) for x in sv) for i0 in ins), 'R08e', 'save_new_snapshot_pointer:insert+SaveLogs',
                    sp.where(), 'the pointer log range is not inserted together with saving the catalogue')
         wr = util.sends(sp, r'raftlog::RaftLogRequest$', 'Write')
         ck.require(len(wr) >= 1, 'R08e', 'save_new_snapshot_pointer:writes-pointer', sp.where(), 'the pointer record is not written into its log file')
